@@ -1,6 +1,7 @@
 package main
 
 import (
+	"bytes"
 	"crypto/sha1"
 	"encoding/json"
 	"fmt"
@@ -195,12 +196,24 @@ func runC10(args []string) {
 		mu.Unlock()
 	})
 	// second pass only for the accepted inputs
+	// the appended definition follows a line end, a blank, a tab or nothing at all
+	seps := []string{"\n", " ", "\t", ""}
 	var idx2 []int
 	var texts2 [][]byte
+	var sep2 []string
 	for i, x := range res1 {
 		if x != nil && x.Outcome == "ok" && !x.HasErr {
-			idx2 = append(idx2, i)
-			texts2 = append(texts2, append(append(append([]byte{}, texts[i]...), '\n'), c10Appended...))
+			for si, sp := range seps {
+				if si > 0 && origin[i] == "tokens" && i%4 != si {
+					continue // token strings: one extra separator each (all four for the corpus mutations)
+				}
+				if si > 0 && !c10SameLineAppendable(texts[i], sp) {
+					continue
+				}
+				idx2 = append(idx2, i)
+				sep2 = append(sep2, sp)
+				texts2 = append(texts2, append(append(append([]byte{}, texts[i]...), sp...), c10Appended...))
+			}
 		}
 	}
 	res2 := make([]*rfRes, len(texts2))
@@ -215,9 +228,9 @@ func runC10(args []string) {
 		dead2[i] = outcome + ": " + core.FatalCause(stderr)
 		mu.Unlock()
 	})
-	second := map[int]int{}
+	second := map[int][]int{}
 	for j, i := range idx2 {
-		second[i] = j
+		second[i] = append(second[i], j)
 	}
 
 	sampled := 0
@@ -260,38 +273,37 @@ func runC10(args []string) {
 			r.Violate("completeness: success without draining the reader", map[string]string{"input": kind},
 				map[string]any{"text": string(t), "origin": origin[i], "pos": x.Pos, "len": len(t), "saw_end": x.SawEnd})
 		}
-		j, ok := second[i]
-		if !ok {
-			continue
-		}
-		if d, ok := dead2[j]; ok {
-			r.Violate("termination: process died or exceeded the CPU budget", map[string]string{"input": kind + "+appended", "how": strings.SplitN(d, ":", 2)[0]},
-				map[string]any{"text": string(texts2[j]), "cause": d})
-			continue
-		}
-		y := res2[j]
-		if y == nil {
-			r.Inconclusive("no result for an input (worker restarted)")
-			continue
-		}
-		if y.Outcome != "ok" {
-			r.Violate("termination: "+strings.SplitN(y.Outcome, ":", 2)[0], map[string]string{"input": kind + "+appended", "site": siteOf(y.Site)},
-				map[string]any{"text": string(texts2[j]), "outcome": y.Outcome, "site": y.Site})
-			continue
-		}
-		if !y.HasErr {
-			found := false
-			for _, s := range y.Structs {
-				if s == "VerifAppendedZz" {
-					found = true
-				}
+		for _, j := range second[i] {
+			sepName := map[string]string{"\n": "newline", " ": "blank", "\t": "tab", "": "nothing"}[sep2[j]]
+			if d, ok := dead2[j]; ok {
+				r.Violate("termination: process died or exceeded the CPU budget", map[string]string{"input": kind + "+appended", "how": strings.SplitN(d, ":", 2)[0]},
+					map[string]any{"text": string(texts2[j]), "cause": d})
+				continue
 			}
-			if !found {
-				r.Violate("completeness: appended definition silently dropped", map[string]string{"input": kind, "tail": tailClass(t)},
-					map[string]any{"text": string(t), "origin": origin[i], "structs_after_append": y.Structs, "ndefs": y.NDefs})
-			} else if sampled < 3 && len(t) > 10 {
-				sampled++
-				r.Sample(map[string]any{"workload": origin[i], "input": core.Short(string(t), 120), "accepted": true, "appended_definition_found": true})
+			y := res2[j]
+			if y == nil {
+				r.Inconclusive("no result for an input (worker restarted)")
+				continue
+			}
+			if y.Outcome != "ok" {
+				r.Violate("termination: "+strings.SplitN(y.Outcome, ":", 2)[0], map[string]string{"input": kind + "+appended", "site": siteOf(y.Site)},
+					map[string]any{"text": string(texts2[j]), "outcome": y.Outcome, "site": y.Site})
+				continue
+			}
+			if !y.HasErr {
+				found := false
+				for _, s := range y.Structs {
+					if s == "VerifAppendedZz" {
+						found = true
+					}
+				}
+				if !found {
+					r.Violate("completeness: appended definition silently dropped", map[string]string{"input": kind, "tail": tailClass(t), "separator": sepName},
+						map[string]any{"text": string(t), "origin": origin[i], "separator": sepName, "structs_after_append": y.Structs, "ndefs": y.NDefs})
+				} else if sampled < 3 && len(t) > 10 {
+					sampled++
+					r.Sample(map[string]any{"workload": origin[i], "input": core.Short(string(t), 120), "accepted": true, "appended_after": sepName, "appended_definition_found": true})
+				}
 			}
 		}
 	}
@@ -411,6 +423,31 @@ func c10Fuzz(r *core.Run) {
 		return
 	}
 	r.Inconclusive("go test -fuzz failed without a failing input: " + core.Short(tail(text, 200), 200))
+}
+
+// c10SameLineAppendable: may a definition be appended to x on the same line after sep and
+// still be "one more valid definition"? Not when x's last line holds a line comment (the
+// definition would become comment text), and with no separator at all only when x ends in
+// a token that cannot merge with the keyword that follows.
+func c10SameLineAppendable(x []byte, sep string) bool {
+	last := x
+	if i := bytes.LastIndexByte(x, '\n'); i >= 0 {
+		last = x[i+1:]
+	}
+	if bytes.Contains(last, []byte("//")) {
+		return false
+	}
+	if sep == "" {
+		if len(x) == 0 {
+			return true
+		}
+		switch x[len(x)-1] {
+		case '}', ';', ')', ']', '\n', ' ', '\t', '\r':
+			return true
+		}
+		return false
+	}
+	return true
 }
 
 func siteOf(site []string) string {
